@@ -461,6 +461,8 @@ fn run_all(ctx: &mut Ctx) {
     let mut tds: Vec<TimeDelta> = ["0s", "1s", "-1s", "1mo", "-2y1d"].iter().map(|s| TimeDelta::parse(s).unwrap()).collect();
     tds.push(TimeDelta::nat());
     null_laws::<TimeDelta>(&mut t, "TimeDelta", tds, true, |x| x.show(), |a, b| a == b);
+    // the remaining IsNone impl: a Vec as an element (empty = null)
+    null_laws::<Vec<i32>>(&mut t, "Vec<i32>", vec![vec![], vec![0], vec![1, 2]], true, |x| format!("{x:?}"), |a, b| a == b);
     vabs_laws(&mut t);
     // (L8) comparators
     macro_rules! ol {
@@ -480,6 +482,14 @@ fn run_all(ctx: &mut Ctx) {
     ol!(isize);
     order_laws::<DateTime<Nanosecond>>(&mut t, "DateTime<ns>", &tv.iter().map(|v| DateTime::new(*v)).collect::<Vec<_>>(), |a, b| a.0.partial_cmp(&b.0), |x| x.show());
     order_laws::<Time>(&mut t, "Time", &tv.iter().map(|v| Time(*v)).collect::<Vec<_>>(), |a, b| a.0.partial_cmp(&b.0), |x| x.show());
+    order_laws::<DateTime<Second>>(&mut t, "DateTime<s>", &tv.iter().map(|v| DateTime::new(*v)).collect::<Vec<_>>(), |a, b| a.0.partial_cmp(&b.0), |x| x.show());
+    order_laws::<DateTime<Millisecond>>(&mut t, "DateTime<ms>", &tv.iter().map(|v| DateTime::new(*v)).collect::<Vec<_>>(), |a, b| a.0.partial_cmp(&b.0), |x| x.show());
+    order_laws::<DateTime<Microsecond>>(&mut t, "DateTime<us>", &tv.iter().map(|v| DateTime::new(*v)).collect::<Vec<_>>(), |a, b| a.0.partial_cmp(&b.0), |x| x.show());
+    // durations: ordered by (months, month-free part), NaT last
+    let mut tds: Vec<TimeDelta> = ["0s", "1s", "-1s", "1d", "1mo", "1mo1s", "-1mo", "-2y1d", "2y"].iter().map(|s| TimeDelta::parse(s).unwrap()).collect();
+    tds.push(TimeDelta::nat());
+    tds.push(TimeDelta::nat());
+    order_laws::<TimeDelta>(&mut t, "TimeDelta", &tds, |a, b| (a.months, a.inner).partial_cmp(&(b.months, b.inner)), |x| x.show());
 }
 
 fn main() {
